@@ -83,7 +83,7 @@ def generate(seed, run, tier):
          "order_before": rs.choice([0, 2, 4]), "order_after": rs.choice([0, 2, 4]),
          "sort": rs.choice([0, 1, 2]), "copy": rs.choice([0, 1, 2]),
          "reparse": rs.choice([0, 1, 2]), "drop": rs.choice([0, 1]), "gc": rs.choice([0, 1]),
-         "update": rs.choice([0, 1]), "badset": rs.choice([0, 1])}
+         "update": rs.choice([0, 1]), "badset": rs.choice([0, 1]), "in": rs.choice([0, 1, 2])}
     kinds = [k for k, v in w.items() for _ in range(v)] or ["set"]
     steps = []
     # looking at a mapping is itself a sequence of calls on it: how often the clients look is
@@ -97,7 +97,7 @@ def generate(seed, run, tier):
         elif k == "badset":
             st["op"] = "set"
             st["k"], st["v"] = _key(rq), rq.choice(BADVALUES)
-        elif k in ("del", "get", "pop", "order_first", "order_last"):
+        elif k in ("del", "get", "pop", "order_first", "order_last", "in"):
             st["k"] = _key(rq)
         elif k in ("order_before", "order_after"):
             st["k"], st["ref"] = _key(rq), _key(rq)
@@ -293,6 +293,8 @@ def execute(case):
                     for kk, vv in st["items"]:
                         m.set(kk, vv)
                     call = lambda: d.update([tuple(x) for x in st["items"]])
+                elif op == "in":
+                    call = lambda: k in d
                 elif op == "get":
                     i = m.idx(k)
                     if i < 0:
@@ -379,6 +381,9 @@ def execute(case):
                 if op.startswith("order_") or op == "sort":
                     if expect is None:
                         reorders += 1
+                if op == "in" and res != (m.idx(k) >= 0):
+                    where.update(got=res, want=m.idx(k) >= 0)
+                    raise Violation("value-or-membership-differs", op, where)
                 if op == "get" and expect is None and res != m.rows[m.idx(k)][2]:
                     where.update(got=res, want=m.rows[m.idx(k)][2])
                     raise Violation("value-or-membership-differs", op, where)
